@@ -187,7 +187,7 @@ func openStoreOn(kind, path string, mem *memFile, roots []string, o sOpts, resum
 		if err != nil {
 			return nil, err
 		}
-		return &rwStore{bs}, nil
+		return &rwStore{bs, nil}, nil
 	}
 	var sc *storage.StorageCar
 	var err error
